@@ -4,7 +4,7 @@
    code 1: the implementation's region differs (as a set of keys over the universe) from the
            twin's region -- for C18 the tie is equality, not inclusion;
    code 2: a key read from storage lies outside the twin's region other than the single key
-           that ends a scan, or a point-read shape used the cursor, or REmpty read anything. *)
+           that ends a scan (the first stored key after the region, read last), or a point-read shape used the cursor, or REmpty read anything. *)
 From Coq Require Import List String Bool Arith.
 Import ListNotations.
 From KV Require Import Base.Bytes Model.Ast Model.FilterOpt.
@@ -23,6 +23,26 @@ Definition count_outside (r : region) (ks : list bytes) : nat :=
 Definition same_on (univ : list bytes) (a b : region) : bool :=
   forallb (fun k => Bool.eqb (covers a k) (covers b k)) univ.
 
+(* the one key outside the region a scan may read is the key that ENDS it: it lies after the
+   region, it is the last key read, and no stored key lies between the region and it (a scan that
+   starts somewhere else -- a cursor left over from an earlier run, a seek that did not happen --
+   reads one key too, but not that one) *)
+Definition above (r : region) (k : bytes) : bool :=
+  match r with
+  | RPrefix p => bltb p k && negb (has_prefix p k)
+  | RRange _ (Some e) => bltb e k
+  | _ => false
+  end.
+
+Definition end_key_ok (univ : list bytes) (r : region) (nexts : list bytes) : bool :=
+  match filter (fun k => negb (covers r k)) nexts with
+  | [] => true
+  | [o] => above r o
+           && (match rev nexts with x :: _ => String.eqb x o | [] => false end)
+           && forallb (fun u => negb (above r u && bltb u o)) univ
+  | _ => false
+  end.
+
 Definition check_case (univ : list bytes) (c : case) : nat :=
   let m := optimize (cexpr c) in
   let bad :=
@@ -31,7 +51,7 @@ Definition check_case (univ : list bytes) (c : case) : nat :=
     | RMget ks => negb (Nat.eqb (List.length (cnexts c) + ccursor c) 0) ||
                   negb (Nat.eqb (count_outside m (cgets c)) 0)
     | RFull => false
-    | _ => negb (Nat.eqb (List.length (cgets c)) 0) || Nat.ltb 1 (count_outside m (cnexts c))
+    | _ => negb (Nat.eqb (List.length (cgets c)) 0) || negb (end_key_ok univ m (cnexts c))
     end in
   if bad then 2
   else if same_on (univ ++ cgets c ++ cnexts c) m (cobs c) then 0 else 1.
